@@ -154,7 +154,7 @@ func runOnly(id, repo, tier string, verbose bool) int {
 		for _, n := range rr.Notes {
 			fmt.Println("note:", n)
 		}
-		fmt.Printf("%s: %d obligations, %d not discharged\n", rid, len(rr.Obls), bad)
+		fmt.Printf("%s: %d obligations, %d not discharged so far\n", rid, len(rr.Obls), bad)
 	}
 	if bad > 0 {
 		return 1
